@@ -44,6 +44,11 @@ def stress_specs(rng):
                 out.append((T + f'It is prohibited that {a}, whenever {b}.\n', [], 'two-tel-constraint'))
     for a in conds[:3]:
         out.append((T + f'Whenever {a}, whenever {a}, then we must have a fired with id 1.\n', [], 'two-tel-head/repeated'))
+    # letter-initial concept names with digits or few consonants: the names invented from them must still be variables
+    for nm in ('a1', 'e2e', 'io', 'b2', 'u9x'):
+        out.append((f'A box is identified by an id.\nA{"n" if nm[0] in "aeiou" else ""} {nm} is identified by an id.\nA box goes from 1 to 2.\n'
+                    f'A{"n" if nm[0] in "aeiou" else ""} {nm} goes from 1 to 2.\nEvery box can hold exactly 1 {nm}.\n'
+                    f'It is prohibited that there is a box with id X, whenever there is a{"n" if nm[0] in "aeiou" else ""} {nm} with id greater than X.\n', ['X'], 'names-with-digits'))
     S = 'A person is identified by a name, and has a city.\n'
     for v in ('"new york"', '"a b c"', 'rome', 'Rome', 'r2d2', '"x_y 1"'):
         out.append((S + f'There is a person with name equal to anna, with city equal to {v}.\n'
@@ -122,7 +127,7 @@ def ground_external(program, timeout=45):
     return p.returncode == 0, [('msg', p.stdout)]
 
 
-STRESS = ('arith', 'two-tel', 'strings', 'constants', 'head-', 'equal-', 'prefixed-and', 'aggregate-where', 'prefix-on')
+STRESS = ('arith', 'two-tel', 'strings', 'constants', 'head-', 'equal-', 'prefixed-and', 'aggregate-where', 'prefix-on', 'names-with')
 
 
 def _job(args):
@@ -238,7 +243,7 @@ def main(tier):
     for r in results:
         if 'rejected' in r:
             stats['rejected'] += 1
-            if r['kind'].startswith(('arith', 'two-tel', 'strings', 'constants', 'head-', 'equal-', 'prefixed-and', 'aggregate-where', 'prefix-on')):
+            if r['kind'].startswith(STRESS):
                 run.note(f'stress form rejected by the compiler ({r["kind"]}): {r["rejected"][:120]}')
             continue
         stats['accepted'] += 1
@@ -500,7 +505,7 @@ def printer_layer(run, rng, tier, texts):
 def classify(r, msg):
     """a stable key for the failing construct (what is wrong, where), independent of names and numbers"""
     prog = r['program']
-    stress = r['kind'].startswith(('arith', 'two-tel', 'strings', 'constants', 'head-', 'equal-', 'prefixed-and', 'aggregate-where', 'prefix-on'))
+    stress = r['kind'].startswith(STRESS)
     if 'not supported' in msg or 'leading primes' in msg:
         # telingo names the offending atom by position
         m = LOC_RE.search(msg)
